@@ -91,7 +91,18 @@ def cases(ctx):
         elif k == "subdivide":
             yield {"kind": k, "base": name, "iterations": rng.choice([1, 1, 2])}
         elif k == "subdivide_subset":
-            yield {"kind": k, "base": name, "faces": sorted(rng.sample(range(n), rng.randint(1, n)))}
+            how = rng.choice(["some", "some", "all", "body", "mask"])
+            if how == "some":
+                faces = sorted(rng.sample(range(n), rng.randint(1, n)))
+            elif how == "body":
+                # every face of one connected body (the whole mesh when it has one body)
+                import trimesh
+                comps = trimesh.graph.connected_components(B[name].face_adjacency, nodes=np.arange(n), min_len=1)
+                faces = sorted(int(i) for i in comps[rng.randrange(len(comps))])
+            else:
+                faces = list(range(n))
+            ctx.count("subset:" + how)
+            yield {"kind": k, "base": name, "faces": faces, "as_mask": how == "mask"}
         elif k == "to_size":
             yield {"kind": k, "base": name, "factor": rng.choice([0.2, 0.3, 0.5, 0.9, 1.0, 1.1, 1.2, 1.5, 2.0]),
                    "max_iter": rng.choice([10, 10, 3])}
@@ -178,9 +189,24 @@ def run_case(c):
                   "nverts": len(s.vertices),
                   "expect_verts": (len(base.vertices) + len(base.edges_unique)) if c["iterations"] == 1 and k == "subdivide" else None})
     elif k == "subdivide_subset":
-        s = base.subdivide(face_index=np.array(c["faces"]))
+        if c.get("as_mask"):
+            fi = np.zeros(len(base.faces), dtype=bool)
+            fi[c["faces"]] = True
+        else:
+            fi = np.array(c["faces"])
+        s = base.subdivide(face_index=fi)
+        sel = np.array(base.faces)[c["faces"]]
+        sel_edges = {tuple(sorted(e)) for f in sel.tolist() for e in ((f[0], f[1]), (f[1], f[2]), (f[2], f[0]))}
+        # selected faces closed under adjacency = whole bodies: then no T-junction is created
+        adj = np.array(base.face_adjacency)
+        chosen = set(c["faces"])
+        whole = all((a in chosen) == (b in chosen) for a, b in adj.tolist())
         o.update({"verts_kept": bool(np.allclose(np.array(s.vertices)[:len(base.vertices)], base.vertices)),
-                  "area": float(s.area), "nfaces": len(s.faces), "expect_faces": len(base.faces) + 3 * len(c["faces"])})
+                  "area": float(s.area), "nfaces": len(s.faces), "expect_faces": len(base.faces) + 3 * len(c["faces"]),
+                  "nverts": len(s.vertices), "expect_verts": len(base.vertices) + len(sel_edges),
+                  "whole_bodies": bool(whole), "watertight": bool(s.is_watertight), "winding": bool(s.is_winding_consistent),
+                  "euler": int(s.euler_number), "volume": float(s.volume),
+                  "base_watertight": bool(base.is_watertight)})
     elif k == "to_size":
         longest = float(base.edges_unique_length.max())
         me = c["factor"] * longest
@@ -234,6 +260,12 @@ def oracle(c, o):
     elif k == "subdivide_subset":
         if not o["verts_kept"] or abs(o["area"] - o["base_area"]) > 1e-9 * max(1.0, o["base_area"]) or o["nfaces"] != o["expect_faces"]:
             return bad("subset-subdivision-changed-the-surface")
+        if o["nverts"] != o["expect_verts"]:
+            return bad("subset-subdivision-not-one-new-vertex-per-edge", whole_bodies=o["whole_bodies"])
+        if o["whole_bodies"] and o["base_watertight"]:
+            if not (o["watertight"] and o["winding"] and o["euler"] == o["base_euler"]
+                    and abs(o["volume"] - o["base_volume"]) <= 1e-9 * max(1.0, abs(o["base_volume"]))):
+                return bad("subdividing-whole-bodies-broke-validity")
     elif k == "to_size":
         if not o["raised"]:
             if o["max_edge"] > o["bound"] * (1 + 1e-12):
